@@ -1596,7 +1596,9 @@ class Sequential(Context):
 
             return obj
 
-        self.visit_objects(visit_objects)
+        # only objects driven by the process itself are reset by it,
+        # the concurrent logic of cohdl.always is a separate driver
+        self._code.visit_objects(visit_objects)
 
         def visit_statements(stmt):
             if isinstance(stmt, _ResetContext):
